@@ -1,0 +1,102 @@
+//go:build verif
+
+package core
+
+import (
+	"strings"
+
+	"github.com/jsightapi/jsight-api-go-library/directive"
+	"github.com/jsightapi/jsight-api-go-library/jerr"
+)
+
+// VerifDescription exposes the description normaliser.
+func VerifDescription(b []byte) ([]byte, error) {
+	c := make([]byte, len(b))
+	copy(c, b)
+	return description(c)
+}
+
+// VerifValidateIncludeFileName exposes the include-name validator.
+func VerifValidateIncludeFileName(s string) error { return validateIncludeFileName(s) }
+
+// VerifPathParameter is a (prefix path, parameter name) pair.
+type VerifPathParameter struct{ Path, Parameter string }
+
+// VerifPathParameters exposes the path-parameter splitter.
+func VerifPathParameters(path string) ([]VerifPathParameter, error) {
+	pp, err := PathParameters(path)
+	out := make([]VerifPathParameter, 0, len(pp))
+	for _, p := range pp {
+		out = append(out, VerifPathParameter{Path: string(p.path), Parameter: p.parameter})
+	}
+	return out, err
+}
+
+func verifDump(b *strings.Builder, d *directive.Directive) {
+	b.WriteByte('(')
+	b.WriteString(d.Keyword)
+	if d.HasExplicitContext {
+		b.WriteByte('!')
+	}
+	for _, c := range d.Children {
+		b.WriteByte(' ')
+		verifDump(b, c)
+	}
+	b.WriteByte(')')
+}
+
+func verifDumpList(dd []*directive.Directive) string {
+	var b strings.Builder
+	for i, d := range dd {
+		if i != 0 {
+			b.WriteByte(' ')
+		}
+		verifDump(&b, d)
+	}
+	return b.String()
+}
+
+// VerifScan runs only the scanning phase and returns the directive forest as an S-expression.
+func (core *JApiCore) VerifScan() (string, *jerr.JApiError) {
+	if je := core.scanProject(); je != nil {
+		return "", je
+	}
+	return verifDumpList(core.directives), nil
+}
+
+// VerifScanAndPaste runs scanning, macro collection and paste expansion and returns both forests.
+func (core *JApiCore) VerifScanAndPaste() (scan string, pasted string, je *jerr.JApiError) {
+	if je := core.scanProject(); je != nil {
+		return "", "", je
+	}
+	scan = verifDumpList(core.directives)
+	if je := core.collectMacro(); je != nil {
+		return scan, "", je
+	}
+	if je := core.checkMacroForRecursion(); je != nil {
+		return scan, "", je
+	}
+	if je := core.processPaste(); je != nil {
+		return scan, "", je
+	}
+	return scan, verifDumpList(core.directivesWithPastes), nil
+}
+
+// VerifContextChain returns the chain of open contexts, innermost first, as "Keyword" or
+// "Keyword!" (explicit) entries, and the pending directive.
+func (core *JApiCore) VerifContextChain() (chain []string, pending string) {
+	for d := core.currentContextDirective; d != nil; d = d.Parent {
+		k := d.Keyword
+		if d.HasExplicitContext {
+			k += "!"
+		}
+		chain = append(chain, k)
+	}
+	if core.currentDirective != nil {
+		pending = core.currentDirective.Keyword
+		if core.currentDirective.HasExplicitContext {
+			pending += "!"
+		}
+	}
+	return chain, pending
+}
